@@ -57,6 +57,12 @@ def sites(f, n, rng):
 
 
 def main():
+    second_pass = "--pass2" in sys.argv  # survivors in main.rs again, with the daemon-level C19 check
+    global OUT
+    first = {}
+    if second_pass:
+        first = {json.loads(l)["id"]: json.loads(l) for l in open(OUT)}
+        OUT = OUT.replace("campaign_daemon.jsonl", "campaign_daemon_pass2.jsonl")
     rng = random.Random(11)
     cands = []
     for f, (_, n) in FILES.items():
@@ -76,6 +82,8 @@ def main():
         for c in cands:
             if c["id"] in done:
                 continue
+            if second_pass and not (c["file"].endswith("main.rs") and first.get(c["id"], {}).get("status") == "survived"):
+                continue
             r = {k: (c[k].strip() if k in ("old", "new") else c[k]) for k in ("id", "file", "line", "op", "old", "new")}
             mc.sh(f"git -C {S}/repo checkout -q -- .")
             path = f"{S}/repo/{c['file']}"
@@ -91,7 +99,9 @@ def main():
                 kind = FILES[c["file"]][0]
                 r["checks"] = {}
                 det = None
-                if kind == "daemon":
+                if kind == "daemon" and second_pass:
+                    runs = [("C19", f"SCRATCH_DIR={S}/dsim SCRATCH_TARGET={S}/dsim-target VERIF_BUDGET_SCALE=0.5 VERIF_MAX_MIN=1 /verif/daemonsim/scripts/scratch-check.sh {S}/repo check C19 quick")]
+                elif kind == "daemon":
                     runs = [("C15", f"SCRATCH_DIR={S}/dsim SCRATCH_TARGET={S}/dsim-target VERIF_BUDGET_SCALE=0.3 VERIF_MAX_MIN=1 /verif/daemonsim/scripts/scratch-check.sh {S}/repo check C15 quick"),
                             ("C12", f"SCRATCH_DIR={S}/dsim SCRATCH_TARGET={S}/dsim-target VERIF_BUDGET_SCALE=0.5 VERIF_MAX_MIN=1 /verif/daemonsim/scripts/scratch-check.sh {S}/repo check C12 quick")]
                 else:
